@@ -244,6 +244,23 @@ def relTol : Float := 1.00001e-8
 /-- 1e-8 relative on an activity = this many log10 units -/
 def logTol : Float := 4.3430e-9
 
+/-- effective CD-MUSIC distribution of a species relative to the master, computed from the TEXT reading alone: own
+`-cd_music` (through `cdDz`) and the rewriting rule of `trxn_add` for every non-master surface parent -/
+def effDz (db : Array DbSp) : Nat → String → Float × Float × Float
+  | 0, _ => (0.0, 0.0, 0.0)
+  | fuel + 1, name =>
+    match db.find? (·.name == name) with
+    | none => (0.0, 0.0, 0.0)
+    | some d =>
+      let own : Float × Float × Float := match d.cd with
+        | [a, b, c, e, f] => if d.hasCd then cdDz a b c e f else (0.0, 0.0, 0.0)
+        | _ => (0.0, 0.0, 0.0)
+      let isMaster (n : String) : Bool := match db.find? (·.name == n) with
+        | some m => m.toks.length == 1 && m.toks.all (fun t => t.1 == n)
+        | none => true
+      let parents := d.toks.filter fun t => t.2.2.2 == 6 && t.1 != name && !isMaster t.1
+      rewriteDz own (parents.map fun t => (t.2.1, effDz db fuel t.1))
+
 def evalBlock (b : Block) (prev : Array (String × Float)) : Array String × Array (String × Float) := Id.run do
   let mut out : Array String := #[]
   let mut hist := prev
@@ -278,12 +295,18 @@ def evalBlock (b : Block) (prev : Array (String × Float)) : Array String × Arr
         | [a0, a1, a2, a3, a4] => (d.cd.zip [a0, a1, a2, a3, a4]).all fun pr => close 1e-12 1e-12 pr.1 pr.2
         | _ => false
       if b.stype == 3 || d.hasCd then out := out.push (vline b "T" "db-cd" sp.name cdOk 0 0)
+      let ez := effDz b.db 8 sp.name
+      if b.stype == 3 then
+        out := out.push (vline b "T" "db-dzeff0" sp.name (close 1e-12 1e-12 sp.dz.1 ez.1) sp.dz.1 ez.1)
+        out := out.push (vline b "T" "db-dzeff1" sp.name (close 1e-12 1e-12 sp.dz.2.1 ez.2.1) sp.dz.2.1 ez.2.1)
+        out := out.push (vline b "T" "db-dzeff2" sp.name (close 1e-12 1e-12 sp.dz.2.2 ez.2.2) sp.dz.2.2 ez.2.2)
       let siteCnt (l : List (String × Float)) := l.foldl (fun a e => if siteNames.contains e.1 then a + e.2 else a) 0.0
       let engCnt := sp.elts.foldl (fun a e => if e.2.2 == 6 then a + e.2.1 else a) 0.0
       out := out.push (vline b "T" "db-elt" sp.name (close 1e-12 1e-12 engCnt (siteCnt d.elts)) engCnt (siteCnt d.elts))
       let toks : List TokD := d.toks.map fun t => { name := t.1, coef := t.2.1, la := laOf t.1, type := t.2.2.2, z := t.2.2.1 }
       let elts := d.elts.map fun e => (e.1, e.2, (if siteNames.contains e.1 then (6 : Int) else 0))
-      sps2 := sps2.push { sp with rxn := toks, lkdb := lk, z := d.z, cd := if d.hasCd || b.stype == 3 then d.cd else sp.cd, elts := elts }
+      sps2 := sps2.push { sp with rxn := toks, lkdb := lk, z := d.z, cd := if d.hasCd || b.stype == 3 then d.cd else sp.cd, elts := elts,
+                                  dz := if b.stype == 3 then ez else sp.dz }
   let b := { b with sps := sps2 }
   -- aqueous charges: engine = database text
   for a in b.aqs do
@@ -398,9 +421,10 @@ def evalBlock (b : Block) (prev : Array (String × Float)) : Array String × Arr
           let g0 := (sp.rxnx.filter (·.type == 7)).foldl (fun a t => a + t.coef) 0.0
           let g1 := (sp.rxnx.filter (·.type == 8)).foldl (fun a t => a + t.coef) 0.0
           let g2 := (sp.rxnx.filter (·.type == 9)).foldl (fun a t => a + t.coef) 0.0
-          out := out.push (vline b "T" "cd-coef0" sp.name (close 1e-12 1e-12 g0 d0) g0 d0)
-          out := out.push (vline b "T" "cd-coef1" sp.name (close 1e-12 1e-12 g1 d1) g1 d1)
-          out := out.push (vline b "T" "cd-coef2" sp.name (close 1e-12 1e-12 g2 d2) g2 d2)
+          -- the equation rewritten to the master carries the EFFECTIVE distribution (own + Σ coef·parent)
+          out := out.push (vline b "T" "cd-coef0" sp.name (close 1e-12 1e-12 g0 sp.dz.1) g0 sp.dz.1)
+          out := out.push (vline b "T" "cd-coef1" sp.name (close 1e-12 1e-12 g1 sp.dz.2.1) g1 sp.dz.2.1)
+          out := out.push (vline b "T" "cd-coef2" sp.name (close 1e-12 1e-12 g2 sp.dz.2.2) g2 sp.dz.2.2)
         | _, _, _ => out := out.push (vline b "V" "ma" sp.name false 0 1)
       else
         -- no electrostatic term (-no_edl)
@@ -515,9 +539,8 @@ def evalBlock (b : Block) (prev : Array (String × Float)) : Array String × Arr
         -- CD-MUSIC
         match cbOf c.name 21, cbOf c.name 22, cbOf c.name 23 with
         | some u0, some u1, some u2 =>
-          let dzOf (sp : Sp) : Float × Float × Float := match sp.cd with
-            | [a, b', c', d, e] => cdDz a b' c' d e
-            | _ => sp.dz
+          -- charge a species puts into the planes relative to the master: the effective distribution (text reading)
+          let dzOf (sp : Sp) : Float × Float × Float := sp.dz
           let f0 := mine.foldl (fun a sp => a + (dzOf sp).1 * sp.moles) 0.0
           let f1 := mine.foldl (fun a sp => a + (dzOf sp).2.1 * sp.moles) 0.0
           let f2 := mine.foldl (fun a sp => a + (dzOf sp).2.2 * sp.moles) 0.0
